@@ -6,7 +6,13 @@
    observable: the set-up observations, then per allocator "ok k ids m numa" (its common result,
    or the first result that differed from it), then the final dump.
    Update is one critical section (c06_conc_update): every Allocate sees the set-up state, so the
-   model answers every request in the state after the single re-recording. *)
+   model answers every request in the state after the single re-recording.
+   optional input tail: E episodes "rel  3 uid excl k ids*k m (node cpu mem)*m": Release(rel) and
+   Update(the spelled allocation) race for the node's ledger: both have fetched the NodeAllocation
+   pointer before either gets its lock (the harness holds a read lock until both are queued).
+   Whatever the order of the two critical sections the result is the same (c06_race_release_update):
+   rel is gone, the new pod is recorded. observable: one more dump per episode, judged by the
+   dump clauses against the live pods recomputed from the input (100 + clause). *)
 From Coq Require Import List ZArith Bool.
 From Verif Require Import Lib.Wire C06.Model C06.Spec C06.Codec.
 Import ListNotations.
@@ -18,11 +24,31 @@ Definition rq_of (x : op) : areq :=
   | _ => mkR (-1) 0 false 0 false 0 None (-1) (-1) [] []
   end.
 
-Definition decode (inp : list Z) : nopts * list item * Z * Z * list areq :=
+Definition dec_episode (l : list Z) : (Z * palloc) * list Z :=
+  match l with
+  | rel :: t => match dec_op t with
+                | (OUpdate p, t') => ((rel, p), t')
+                | (_, t') => ((rel, mkP (-1) [] 0 []), t')
+                end
+  | [] => ((-1, mkP (-1) [] 0 []), [])
+  end.
+
+Definition decode_full (inp : list Z) : nopts * list item * Z * Z * list areq * list (Z * palloc) :=
   let '(o, ops, t) := decode_hist inp in
   match t with
-  | x :: ku :: t1 => let '(rs, _) := decode_seq dec_op t1 in (o, ops, x, ku, map rq_of rs)
-  | _ => (o, ops, -1, 0, [])
+  | x :: ku :: t1 => let '(rs, t2) := decode_seq dec_op t1 in
+                     let '(eps, _) := decode_seq dec_episode t2 in
+                     (o, ops, x, ku, map rq_of rs, eps)
+  | _ => (o, ops, -1, 0, [], [])
+  end.
+Definition decode (inp : list Z) : nopts * list item * Z * Z * list areq :=
+  fst (decode_full inp).
+
+(* the racing Release / Update pairs, one after the other *)
+Fixpoint run_episodes (o : nopts) (st : lstate) (eps : list (Z * palloc)) : list Z :=
+  match eps with
+  | [] => []
+  | (rel, p) :: t => let st' := update (release st rel) p in dump o st' ++ run_episodes o st' t
   end.
 
 Definition run_case (inp : list Z) : list Z :=
@@ -32,17 +58,28 @@ Definition run_case (inp : list Z) : list Z :=
              | Some p => update st p
              | None => st
              end in
-  out ++ flat_map (fun rq => enc_result (allocate o st' rq)) reqs ++ dump o st'.
+  out ++ flat_map (fun rq => enc_result (allocate o st' rq)) reqs ++ dump o st'
+      ++ run_episodes o st' (snd (decode_full inp)).
 
 Definition prop_case (inp obs : list Z) : Z :=
   let '(o, ops, x, ku, reqs) := decode inp in
   let '(recs, rest) := decode_many dec_lobs (length ops) obs in
   let '(results, rest') := decode_many dec_result (length reqs) rest in
   let '(final, rest'') := dec_dump rest' in
-  match rest'' with
-  | [] => conc_code o ops reqs recs results final
-  | _ => 98
-  end.
+  let c := conc_code o ops reqs recs results final in
+  if negb (c =? 0) then c
+  else
+    let '(_, ps0, es, _) := hist_fold o [] [] true ops recs in
+    let fix go (ps : list palloc) (eps : list (Z * palloc)) (l : list Z) : Z :=
+      match eps with
+      | [] => match l with [] => 0 | _ => 98 end
+      | (rel, p) :: t =>
+        let ps' := pods_put (pods_del ps rel) p in
+        let '(d, l') := dec_dump l in
+        let c1 := dump_code o ps' (edges_del (edges_del es rel) (p_uid p)) false d in
+        if negb (c1 =? 0) then 100 + c1 else go ps' t l'
+      end in
+    go ps0 (snd (decode_full inp)) rest''.
 
 (* non-trivial: the re-recorded pod is live and holds CPUs, and some allocator asks for CPUs *)
 Definition nontrivial_case (inp : list Z) : bool :=
